@@ -136,3 +136,80 @@ def ref_answer(solver, logic, decls, assertions, timeout=10, want_model=False):
         except Exception:
             model = None
     return first, model
+
+
+# ---------------------------------------------------------------------------------------------
+# judging check-sat answers
+# ---------------------------------------------------------------------------------------------
+
+def z3_model_to_defs(model_sx):
+    """z3 prints (declare-fun U!val!0 () U) / (forall ...) noise for uninterpreted sorts: keep define-funs."""
+    return [d for d in (model_sx or []) if isinstance(d, list) and d and d[0] == "define-fun"]
+
+
+class _Z3Sig(smtlib.Sig):
+    pass
+
+
+def certify_sat_with_oracle_model(sig, logic, decls, assertions):
+    """Ask z3 for a model of the assertions and validate it with the verified evaluator.
+    Returns ('certified', model) | ('oracle-sat-unconfirmed', why) | ('oracle-unsat', None) | ('oracle-unknown', None)."""
+    ans, model = ref_answer("z3", logic, decls, assertions, want_model=True)
+    if ans == "unsat":
+        return "oracle-unsat", None
+    if ans != "sat":
+        return "oracle-unknown", None
+    defs = z3_model_to_defs(model)
+    # z3's abstract values  U!val!k  -> (as @k U)
+    def conv(x, sortname=None):
+        if isinstance(x, list):
+            return [conv(y) for y in x]
+        m = re.match(r"^(\w+)!val!(\d+)$", x)
+        if m:
+            return ["as", "@z%s" % m.group(2), m.group(1)]
+        return x
+    defs = [conv(d) for d in defs]
+    ev = evaluate(sig, defs, [strip_named(a) for a in assertions])
+    if "error" in ev:
+        return "oracle-sat-unconfirmed", ev["error"]
+    if ev["ok"]:
+        return "certified", defs
+    return "oracle-sat-unconfirmed", "z3 model not accepted: asserts=%s missing=%s" % (ev["asserts"], ev["missing"])
+
+
+def judge_unsat(sig, logic, decls, assertions):
+    """An `unsat` answer for these assertions: look for a counterexample.
+    Returns (verdict, detail): 'agree' (both oracles unsat) | 'refuted-certified' (model validated by the verified
+    evaluator) | 'refuted-oracles' (z3 and cvc5 both say sat, no validated model) | 'undecided'."""
+    v, m = certify_sat_with_oracle_model(sig, logic, decls, assertions)
+    if v == "certified":
+        return "refuted-certified", sx_str(m)
+    c, _ = ref_answer("cvc5", logic, decls, assertions)
+    if v == "oracle-unsat" and c in ("unsat", "unknown"):
+        return "agree", None
+    if v == "oracle-unsat" and c == "sat":
+        return "undecided", "z3 unsat, cvc5 sat"
+    if v == "oracle-sat-unconfirmed" and c == "sat":
+        return "refuted-oracles", m
+    if v == "oracle-unknown" and c == "unsat":
+        return "agree", None
+    return "undecided", "z3:%s cvc5:%s" % (v, c)
+
+
+def judge_sat(sig, logic, decls, assertions, own_model_sx):
+    """A `sat` answer: 'certified' when the solver's own model passes the verified evaluator;
+    else ask the oracles: 'refuted-oracles' (both unsat), 'model-invalid-but-sat' , 'undecided'."""
+    if own_model_sx is not None and isinstance(own_model_sx, list) and not (own_model_sx and own_model_sx[0] == "error"):
+        ev = evaluate(sig, own_model_sx, [strip_named(a) for a in assertions])
+        if "error" not in ev and ev["ok"]:
+            return "certified", None
+        why = ev.get("error") or "asserts=%s missing=%s" % (ev["asserts"], ev["missing"])
+    else:
+        why = "no model"
+    z, _ = ref_answer("z3", logic, decls, assertions)
+    c, _ = ref_answer("cvc5", logic, decls, assertions)
+    if z == "unsat" and c == "unsat":
+        return "refuted-oracles", why
+    if z == "sat" or c == "sat":
+        return "model-invalid-but-sat", why
+    return "undecided", why
